@@ -22,6 +22,11 @@ CFG = PropCfg(
               nontrivial=lambda ops, outs: any(o.startswith("val") for o in outs) and "eof" in outs,
               classify=lambda op, out: op.split(" ", 1)[0] + "->" + out.split(" ", 1)[0]),
      SuiteCfg("C17lin", kind="monitor", signature=_sig_lin, timeout=3000,
+              nontrivial=lambda seg, ver: sum(1 for l in seg if l.startswith("ret ")) >= 3),
+     # the same programs under the Go race detector (-race): a reported data race makes the harness
+     # exit non-zero, which the runner reports as a broken correspondence with the race report
+     SuiteCfg("C17race", kind="monitor", signature=_sig_lin, timeout=3000, tags="race",
+              env={"GORACE": "halt_on_error=1"},
               nontrivial=lambda seg, ver: sum(1 for l in seg if l.startswith("ret ")) >= 3)],
     rule="C17q: a case is one single-goroutine operation sequence (new cap; send/recv/close/set/cancel/fire ...) "
          "run on a real common.DeadlineChan[int] and on QSpec; every answer is compared exactly; calls that "
